@@ -44,6 +44,8 @@ def main(run: Run) -> int:
         jobs += j3
     for j in jobs:
         alljobs.append(dict(j, module="vf.harness.valid_glue", bound="real is_valid_expression on the AHB expressions of this partition; it enumerates all 3^m*2^n results itself"))
+    for i in range(len(valid_glue.MULTI)):
+        alljobs.append({"fn": "multi", "module": "vf.harness.valid_glue", "globals": {"M_LO": i, "M_HI": i + 1}, "timeout": 400, "bound": "multi-part AHB expression x all states of 2 requirement keys x format value x yield"})
     alljobs.sort(key=lambda j: -j.get("timeout", 0))
     for r, j in zip(xh.run_jobs(run, "vf.harness.rc_step", alljobs), alljobs):
         xh.default_verdict(run, r, feats, bound=j["bound"])
